@@ -56,6 +56,30 @@ def _native(v, dt):
     return int(f) if dt == numpy.int64 else float(f)
 
 
+def apply_view(a, view):
+    """Strided (non-copying) ndarray views of an operand: the same call works on an ndpoly (ndarray methods on the raw
+    storage) and on a model array."""
+    if not view:
+        return a
+    if view == "T":
+        return a.T
+    if view == "rev":
+        return a[::-1] if not hasattr(a, "names") else numpy.ndarray.__getitem__(a, slice(None, None, -1))
+    if view == "swap":
+        return a.swapaxes(0, -1)
+    raise ValueError(view)
+
+
+def view_shape(spec) -> Tuple[int, ...]:
+    shape = tuple(spec.get("shape", ()))
+    v = spec.get("view")
+    if v == "T":
+        return tuple(reversed(shape))
+    if v == "swap" and len(shape) >= 2:
+        return (shape[-1],) + shape[1:-1] + (shape[0],)
+    return shape
+
+
 def build_operand(spec: Dict, values: Optional[Dict[str, Fraction]] = None):
     """Build the real operand (numpoly.ndpoly / ndarray / list / python number).
 
@@ -75,11 +99,11 @@ def build_operand(spec: Dict, values: Optional[Dict[str, Fraction]] = None):
             arrs = [numpy.array([_native(v, dt) for v in col], dtype=dt).reshape(shape) for col in cols]
         names = tuple(spec["names"])
         if spec.get("mode", "raw") == "clean":
-            return numpoly.polynomial_from_attributes(spec["exps"], arrs, names, dtype=dt if values is None else None)
+            return apply_view(numpoly.polynomial_from_attributes(spec["exps"], arrs, names, dtype=dt if values is None else None), spec.get("view"))
         p = numpoly.ndpoly(exponents=spec["exps"], shape=shape, names=names, dtype=dt)
         for key, arr in zip(p.keys, arrs):
             p.values[key] = arr
-        return p
+        return apply_view(p, spec.get("view"))
     vals = [_slot_value(s, values) for s in spec["slots"]]
     if kind == "scalar":
         v = vals[0]
@@ -106,7 +130,7 @@ def model_operand(spec: Dict, values: Optional[Dict[str, Fraction]] = None) -> n
     shape = tuple(spec.get("shape", ()))
     if kind == "poly":
         cols = [[_slot_value(s, values) for s in col] for col in spec["slots"]]
-        return M.from_attributes(spec["exps"], [oarray(col, shape) for col in cols], tuple(spec["names"]), shape)
+        return apply_view(M.from_attributes(spec["exps"], [oarray(col, shape) for col in cols], tuple(spec["names"]), shape), spec.get("view"))
     vals = [_slot_value(s, values) for s in spec["slots"]]
     return M.mp_array([M.MP.const(v) for v in vals], shape)
 
